@@ -59,6 +59,8 @@ type Scenario struct {
 	Msgs        []gen.Recipe `json:"msgs,omitempty"`
 	InitialMAC  bool         `json:"initial_mac,omitempty"`
 	TimersFirst bool         `json:"timers_first,omitempty"`
+	DefaultTime bool         `json:"default_time,omitempty"` // the stub TSIG carries time 0 ("now") and the MAC comes from a provider that takes 1.2 s of simulated time
+	Parallel    int          `json:"parallel,omitempty"`     // kind parallel: that many signer/verifier tasks share one key and algorithm
 	Events      []Event      `json:"events,omitempty"`
 	// session
 	Strategy  int              `json:"strategy,omitempty"`
@@ -171,6 +173,14 @@ func Gen(seed uint64, tier string) any {
 	}
 	sc.InitialMAC = core.Chance(r, 50)
 	sc.TimersFirst = core.Chance(r, 10)
+	sc.DefaultTime = core.Chance(r, 12)
+	if sc.DefaultTime {
+		sc.SkewS = 0
+	}
+	if core.Chance(r, 6) {
+		sc.Kind, sc.Parallel = "parallel", 2+r.IntN(3)
+		return sc
+	}
 	ne := 1 + r.IntN(6)
 	for i := 0; i < ne; i++ {
 		ev := Event{Msg: r.IntN(n), Fault: "none", Prior: "right", Timers: "right", Key: "right", Time: "now"}
@@ -287,7 +297,9 @@ func Run(t *testing.T, scAny any, verbose bool) *core.Result {
 		return res
 	}
 	leak := common.Bubble(t, func() {
-		if sc.Kind == "session" && sc.Transport == "udp" {
+		if sc.Kind == "parallel" {
+			runParallel(sc, res, verbose)
+		} else if sc.Kind == "session" && sc.Transport == "udp" {
 			runUDPSession(sc, res, verbose)
 		} else if sc.Kind == "session" {
 			runSession(sc, res, verbose)
@@ -375,9 +387,21 @@ func runBare(sc *Scenario, res *core.Result, verbose bool) {
 			logf("message %d does not pack / too large", i)
 			break
 		}
-		m.SetTsig(keyName, sc.Alg, uint16(sc.Fudge), signT)
 		timers := i > 0 || sc.TimersFirst
-		out, mac, err := dns.TsigGenerate(m, secretGood, prior, timers)
+		var out []byte
+		var mac string
+		var err error
+		if sc.DefaultTime {
+			// "use the current time": the signer must put the instant it hashed on the wire,
+			// however long the provider takes
+			m.SetTsig(keyName, sc.Alg, uint16(sc.Fudge), 0)
+			signT = time.Now().Unix()
+			out, mac, err = dns.TsigGenerateWithProvider(m, slowHMAC{secretGood, 1200 * time.Millisecond}, prior, timers)
+			res.Bump("fault.slow_tsig_provider")
+		} else {
+			m.SetTsig(keyName, sc.Alg, uint16(sc.Fudge), signT)
+			out, mac, err = dns.TsigGenerate(m, secretGood, prior, timers)
+		}
 		res.Bump("oracle.G2_generated_shape")
 		if err != nil {
 			res.Fail("G2", "generate-failed", "TsigGenerate failed for message %d (%s): %v", i, sc.Alg, err)
@@ -395,10 +419,16 @@ func runBare(sc *Scenario, res *core.Result, verbose bool) {
 			res.Fail("G2", "message-octets-changed", "the octets before the TSIG record differ from the unsigned message %d", i)
 		case hex.EncodeToString(ts.MAC) != mac:
 			res.Fail("G2", "returned-mac", "TsigGenerate returned a MAC that is not the one in the record (message %d)", i)
-		case ts.Class != 255 || ts.TTL != 0 || ts.KeyName != keyName || int(ts.Fudge) != sc.Fudge || ts.Time != uint64(signT):
+		case ts.Class != 255 || ts.TTL != 0 || ts.KeyName != keyName || int(ts.Fudge) != sc.Fudge || (!sc.DefaultTime && ts.Time != uint64(signT)):
 			res.Fail("G2", "tsig-fields", "TSIG record of message %d: class %d ttl %d key %s fudge %d time %d", i, ts.Class, ts.TTL, ts.KeyName, ts.Fudge, ts.Time)
 		}
 		if res.Verdict != core.OK {
+			return
+		}
+		// G2: what was generated is itself RFC 8945-valid for the arguments given (judged at its own signing time)
+		pbG, _ := hex.DecodeString(prior)
+		if v := oracle.VerifyTSIG(out, map[string]string{keyName: secretGood}, pbG, timers, ts.Time); v.Judgable && !v.Valid {
+			res.Fail("G2", "generated-not-rfc-valid:"+strings.ReplaceAll(v.Reason, " ", "-"), "message %d as signed by TsigGenerate (timers-only=%v, request MAC %d octets) is not RFC 8945-valid: %s", i, timers, len(pbG), v.Reason)
 			return
 		}
 		chain = append(chain, signedMsg{wire: out, mac: mac, prior: prior, timers: timers})
@@ -641,6 +671,115 @@ func verify(b []byte, secret, prior string, timers bool) (err error, pan string)
 		}
 	}()
 	return dns.TsigVerify(b, secret, prior, timers), ""
+}
+
+// slowHMAC is a TsigProvider whose MAC computation takes simulated time.
+type slowHMAC struct {
+	secret string
+	d      time.Duration
+}
+
+func (p slowHMAC) Generate(msg []byte, t *dns.TSIG) ([]byte, error) {
+	time.Sleep(p.d)
+	raw, err := base64.StdEncoding.DecodeString(p.secret)
+	if err != nil {
+		return nil, err
+	}
+	m := oracle.HMAC(dns.CanonicalName(t.Algorithm), raw, msg)
+	if m == nil {
+		return nil, dns.ErrKeyAlg
+	}
+	return m, nil
+}
+
+func (p slowHMAC) Verify(msg []byte, t *dns.TSIG) error {
+	m, err := p.Generate(msg, t)
+	if err != nil {
+		return err
+	}
+	if hex.EncodeToString(m) != strings.ToLower(t.MAC) {
+		return dns.ErrSig
+	}
+	return nil
+}
+
+// --- several signers and verifiers sharing one key and algorithm
+
+type parTask struct {
+	k   *kernel.K
+	res *core.Result
+	sc  *Scenario
+	idx int
+	fin *int
+}
+
+//go:norace
+func (p *parTask) RunEvent(time.Time) {
+	k := p.k
+	for round := 0; round < 3; round++ {
+		m := new(dns.Msg)
+		m.SetQuestion(fmt.Sprintf("p%d-r%d.parallel.test.", p.idx, round), dns.TypeTXT)
+		m.Id = uint16(900 + p.idx*8 + round)
+		m.SetTsig(keyName, p.sc.Alg, uint16(p.sc.Fudge), time.Now().Unix())
+		k.Yield("par.sign", p.idx)
+		out, mac, err := dns.TsigGenerate(m, secretGood, "", false)
+		k.Yield("par.verify", p.idx)
+		var verr error
+		var v oracle.TSIGVerdict
+		if err == nil {
+			v = oracle.VerifyTSIG(out, map[string]string{keyName: secretGood}, nil, false, uint64(time.Now().Unix()))
+			verr = dns.TsigVerify(append([]byte(nil), out...), secretGood, "", false)
+		}
+		k.Lock()
+		p.res.Stats["oracle.G1_parallel_sign_verify"]++
+		switch {
+		case err != nil:
+			p.res.Fail("G2", "generate-failed-concurrent", "TsigGenerate failed while other signers were active: %v", err)
+		case !v.Valid && v.Judgable:
+			p.res.Fail("G2", "generated-not-rfc-valid-concurrent", "a message signed while %d other signers were active is not RFC 8945-valid (%s, MAC %s)", p.sc.Parallel-1, v.Reason, mac)
+		case verr != nil:
+			p.res.Fail("G1", "valid-rejected-concurrent", "TsigVerify rejected a valid message while other verifiers were active: %v", verr)
+		}
+		k.Unlock()
+	}
+	k.Lock()
+	*p.fin++
+	k.Unlock()
+}
+
+type parDone struct {
+	fin *int
+	n   int
+}
+
+//go:norace
+func (d parDone) Check(time.Time) string {
+	if *d.fin == d.n {
+		return "done"
+	}
+	return ""
+}
+
+//go:norace
+func runParallel(sc *Scenario, res *core.Result, verbose bool) {
+	k := kernel.New(kernel.Config{Seed: sc.RunSeed, Strategy: int(sc.RunSeed % kernel.NumStrats), PCTDepth: 2, PCTSpan: 40, Verbose: verbose, MaxSteps: 5000})
+	kernel.SetCurrent(k)
+	defer kernel.SetCurrent(nil)
+	fin := 0
+	for i := 0; i < sc.Parallel; i++ {
+		k.Go("par"+strconv.Itoa(i), &parTask{k: k, res: res, sc: sc, idx: i, fin: &fin})
+	}
+	out := k.Run(parDone{&fin, sc.Parallel})
+	res.Steps, res.Digest = k.Steps, k.Digest()
+	if verbose {
+		res.Log = k.Log
+	}
+	k.Abort()
+	if out != kernel.Finished && res.Verdict == core.OK {
+		res.Verdict, res.Msg = core.Harness, "parallel TSIG run ended with "+out
+	}
+	res.Nontrivial = true
+	res.Class = fmt.Sprintf("parallel/%s/n=%d", strings.ToLower(sc.Alg), sc.Parallel)
 }
 
 // ---------------------------------------------------------------- sessions
@@ -1321,5 +1460,5 @@ func runUDPSession(sc *Scenario, res *core.Result, verbose bool) {
 }
 
 func init() {
-	core.Register(&core.Prop{ID: "C11", Gen: Gen, Decode: Decode, Run: Run, Shrink: Shrink, Modes: []string{"pristine", "instr"}})
+	core.Register(&core.Prop{ID: "C11", Gen: Gen, Decode: Decode, Run: Run, Shrink: Shrink, Modes: []string{"pristine", "instr"}, Race: true})
 }
